@@ -60,8 +60,11 @@ class Ctx(object):
             self._pm = Repo(self.repo)
         return self._pm
 
+    # properties whose full box is cheap enough (< 2 s on 4 processes) to be swept on every change
+    FULL_IN_QUICK = {"C05", "C14", "C16", "C17"}
+
     def thorough(self):
-        return self.tier == "thorough"
+        return self.tier == "thorough" or self.prop in self.FULL_IN_QUICK
 
     def add(self, finding):
         self.findings.append(finding)
